@@ -79,6 +79,9 @@ class Check:
     def ensure_makefile(self):
         mk = os.path.join(COQ, "Makefile")
         cp = os.path.join(COQ, "_CoqProject")
+        want = gen_coqproject()
+        if (not os.path.exists(cp)) or open(cp).read() != want:
+            open(cp, "w").write(want)
         if (not os.path.exists(mk)) or os.path.getmtime(mk) < os.path.getmtime(cp):
             rc, out = sh("coq_makefile -f _CoqProject -o Makefile", cwd=COQ)
             if rc != 0:
@@ -361,10 +364,26 @@ def match_known(key, known_keys):
 
 
 def load_known():
-    p = os.path.join(ROOT, "known_findings.json")
-    if not os.path.exists(p):
-        return []
-    return json.load(open(p)).get("findings", [])
+    """known findings live in findings/<PROP>.json: {"findings":[{property,key,status,what_fails,commit?,replay?}]}"""
+    out = []
+    d = os.path.join(ROOT, "findings")
+    for f in sorted(os.listdir(d)) if os.path.isdir(d) else []:
+        if f.endswith(".json") and re.match(r"C\d+\.json$", f):
+            out.extend(json.load(open(os.path.join(d, f))).get("findings", []))
+    return out
+
+
+def gen_coqproject():
+    """_CoqProject lists every .v under coq/ (coqdep orders them); scratch files under coq/tmp are skipped."""
+    files = []
+    for d, dirs, fs in os.walk(COQ):
+        dirs[:] = [x for x in dirs if x not in ("tmp",) and not x.startswith(".")]
+        for f in fs:
+            if f.endswith(".v"):
+                files.append(os.path.relpath(os.path.join(d, f), COQ))
+    head = ["-Q . LE",
+            "-arg -w -arg -notation-overridden,-deprecated-hint-without-locality,-deprecated-instance-without-locality,-deprecated-syntactic-definition"]
+    return "\n".join(head + sorted(files)) + "\n"
 
 
 def strip_coq_comments(s):
